@@ -19,6 +19,7 @@ import (
 	"strconv"
 	"strings"
 	"sync"
+	"unsafe"
 
 	"github.com/modern-go/reflect2"
 )
@@ -32,6 +33,13 @@ type FieldAccessor struct {
 	Field  reflect2.StructField
 	Encode EncodeHandler
 	Decode DecodeHandler
+	base   uintptr // where the embedded struct that declares Field starts inside the outer struct
+}
+
+// unsafeGet returns the address of the field inside the struct at ptr. Field is relative to the
+// (possibly embedded) struct that declares it, base is the offset of that struct.
+func (f *FieldAccessor) unsafeGet(ptr unsafe.Pointer) unsafe.Pointer {
+	return f.Field.UnsafeGet(unsafe.Pointer(uintptr(ptr) + f.base))
 }
 
 func stripOptions(tag string) string {
@@ -63,7 +71,7 @@ func fieldAlias(tag reflect.StructTag, name string, tags []string) string {
 	return name
 }
 
-func _getFields(t reflect2.StructType, tags []string, mapping map[string]struct{}, fields []FieldAccessor) []FieldAccessor {
+func _getFields(t reflect2.StructType, base uintptr, tags []string, mapping map[string]struct{}, fields []FieldAccessor) []FieldAccessor {
 	n := t.NumField()
 	for i := 0; i < n; i++ {
 		f := t.Field(i)
@@ -75,7 +83,7 @@ func _getFields(t reflect2.StructType, tags []string, mapping map[string]struct{
 			continue
 		case reflect.Struct:
 			if f.Anonymous() {
-				fields = _getFields(ft.(reflect2.StructType), tags, mapping, fields)
+				fields = _getFields(ft.(reflect2.StructType), base+f.Offset(), tags, mapping, fields)
 				continue
 			}
 		}
@@ -96,6 +104,7 @@ func _getFields(t reflect2.StructType, tags []string, mapping map[string]struct{
 		field.Type = ft
 		field.Alias = name
 		field.Field = f
+		field.base = base
 		typ := ft.Type1()
 		if field.Encode = GetEncodeHandler(typ); field.Encode == nil {
 			continue
@@ -111,7 +120,7 @@ func _getFields(t reflect2.StructType, tags []string, mapping map[string]struct{
 }
 
 func getFields(t reflect.Type, tag ...string) []FieldAccessor {
-	return _getFields(reflect2.Type2(t).(reflect2.StructType), tag, map[string]struct{}{}, nil)
+	return _getFields(reflect2.Type2(t).(reflect2.StructType), 0, tag, map[string]struct{}{}, nil)
 }
 
 var structFieldMapCache sync.Map
